@@ -242,6 +242,16 @@ def gen_tree(rng, P, depth=0, path="p", taken=None):
                         la = fresh(SUB_LONGS, sub_longs)
                         if la:
                             s["long_flag_aliases"] = [(la.encode(), chance(rng, 0.5))]
+            # flag-subcommand aliases need no primary flag: `--sync` declared only as long_flag_alias still names the
+            # subcommand (Command::long_flag_aliases_to / short_flag_aliases_to; seeded change seed3/C09-2)
+            if "long_flag" not in s and chance(rng, 0.12):
+                la = fresh(SUB_LONGS, sub_longs)
+                if la:
+                    s["long_flag_aliases"] = [(la.encode(), chance(rng, 0.5))]
+            if "short_flag" not in s and chance(rng, 0.12):
+                sa = fresh(SUB_SHORTS, sub_shorts)
+                if sa:
+                    s["short_flag_aliases"] = [(sa, chance(rng, 0.5))]
             c["subs"].append(s)
     if chance(rng, P.p_external):
         if chance(rng, 0.5):
